@@ -27,8 +27,11 @@ ForeignOps == {"strip_envelope", "planted"}
 \* knows his own) can rewrite it without any key - end of the last field and the compression frame's checksum included.  Only the
 \* MAC stands between that and a forged session, so this is the operator that tells whether the MAC covers the value to its end.
 CraftedOps == {"known_plaintext_tail"}
+\* no alteration at all, but many sessions issued at the same time: every cookie handed out decodes to exactly the session it was issued for
+ConcurrentOps == {"concurrent_issue"}
 Ops(c) == FieldOps \cup PairOps \cup NameOps \cup ForeignOps \cup (IF Split(c) THEN PartOps ELSE {})
           \cup (IF c \in {"cookie1", "cookie2", "cookie3"} THEN CraftedOps ELSE {})
+          \cup (IF c = "cookie1" THEN ConcurrentOps ELSE {})
 
 VARIABLE c
 \* expire = "zero": cookie-expire 0 (browser-session cookies, no age limit): everything else about a credential is as binding as ever
